@@ -36,6 +36,7 @@ type Contract struct {
 	LoopMod    map[int][]string
 	Decreases  *Clause
 	Trusted    bool // body not verified (external / assumed contract)
+	QuietFrame bool // modifies clause is checked and propagated, but no automatic frame facts are assumed at call sites (the contract states its frame explicitly)
 	SplitPaths bool // top-level if statements are followed path by path instead of merged
 	Pure       bool
 	Params     []GhostParam // for trusted externals declared with a signature
@@ -105,7 +106,7 @@ type SpecFile struct {
 
 var clauseKw = map[string]bool{
 	"func": true, "requires": true, "ensures": true, "assigns": true, "modifies": true, "loop": true, "decreases": true,
-	"ghost": true, "after": true, "before": true, "uf": true, "lemma": true, "axiom": true, "trusted": true, "pure": true, "split-paths": true, "opaque": true,
+	"ghost": true, "after": true, "before": true, "uf": true, "lemma": true, "axiom": true, "trusted": true, "pure": true, "split-paths": true, "quietframe": true, "opaque": true,
 	"sort": true, "closedtype": true, "immutable": true, "ghostvar": true, "ghostfield": true, "free": true, "extern": true, "assume-note": true, "end": true,
 }
 
@@ -251,6 +252,10 @@ func ParseSpecFile(path, pkgName, pkgPath string, sf *SpecFile) error {
 					return err
 				}
 				cur.Modifies = append(cur.Modifies, &Clause{Kind: "modifies", Text: d, Expr: e, Line: rc.line, File: path})
+			}
+		case "quietframe":
+			if cur != nil {
+				cur.QuietFrame = true
 			}
 		case "split-paths":
 			if cur != nil {
